@@ -2233,3 +2233,106 @@ func zzC02fOutagePositions() {
 }
 
 func zzC02fOutagePositionsDev1() { zzDeviations = 1; zzC02fOutagePositions() }
+
+// C05.g: two outages in a row, with a consumed but not yet acknowledged downstream chunk at the
+// first one: each outage is survived (fresh token per dial, both streams resumed under their original
+// ids, notifications once per outage), the pending acknowledgement goes out exactly once after the
+// recovery with a continuing ack id, and both streams work after the second recovery.
+func zzC05gTwoOutages() {
+	b := zzNewBroker()
+	zzServeStreams(b)
+	ev := &zzEvents{}
+	conf := b.config()
+	conf.DisconnectedEventHandler = ev
+	conf.ReconnectedEventHandler = ev
+	n := 0
+	randomString = func() string { n++; return "call-" + string(rune('a'+n)) }
+	conn, err := ConnectWithConfig(conf)
+	vf.Assume(err == nil)
+	vf.Settle()
+	vf.Deviations(zzDeviations)
+	ctx := context.Background()
+	up, err := conn.OpenUpstream(ctx, "session", WithUpstreamFlushPolicyNone(), WithUpstreamQoS(message.QoSReliable), WithUpstreamResumedEventHandler(ev), WithUpstreamClosedEventHandler(ev))
+	vf.Assume(err == nil)
+	down, err := conn.OpenDownstream(ctx, []*message.DownstreamFilter{{SourceNodeID: "node"}}, WithDownstreamResumedEventHandler(ev), WithDownstreamClosedEventHandler(ev), WithDownstreamAckFlushInterval(time.Hour))
+	vf.Assume(err == nil)
+	vf.Settle()
+	tr1 := b.last()
+	var openDown *message.DownstreamOpenRequest
+	for _, m := range tr1.msgs() {
+		if r, ok := m.(*message.DownstreamOpenRequest); ok {
+			openDown = r
+		}
+	}
+	vf.Assume(openDown != nil)
+	alias := openDown.DesiredStreamIDAlias
+	info := &message.UpstreamInfo{SessionID: "s", SourceNodeID: "node", StreamID: zzStreamID1}
+	chunk := func(seq uint32) *message.DownstreamChunk {
+		return &message.DownstreamChunk{StreamIDAlias: alias, UpstreamOrAlias: info, StreamChunk: &message.StreamChunk{SequenceNumber: seq,
+			DataPointGroups: []*message.DataPointGroup{{DataIDOrAlias: &message.DataID{Name: "x", Type: "t"}, DataPoints: []*message.DataPoint{{ElapsedTime: 1}}}}}}
+	}
+	// a chunk is consumed; its acknowledgement is still pending (flush interval 1 h) when the transport dies
+	tr1.push(chunk(1))
+	vf.Settle()
+	c1, e1 := down.ReadDataPoints(ctx)
+	vf.Assume(e1 == nil && c1 != nil)
+	id := &message.DataID{Name: "n", Type: "t"}
+	outage := func(k int) *zzTr {
+		b.last().Close()
+		vf.Settle()
+		vf.Advance(11 * time.Second)
+		vf.Advance(2 * time.Second)
+		vf.Assert("recovered", b.dials == k+1 && b.tokens == k+1 && conn.state.Is(connStatusConnected))
+		vf.Assert("notifications-once-per-outage", ev.disconnected == k && ev.reconnected == k && ev.upResumed == k && ev.downResumed == k && ev.upClosed == 0 && ev.downClosed == 0)
+		t := b.last()
+		nu, nd := 0, 0
+		for _, m := range t.msgs() {
+			switch r := m.(type) {
+			case *message.UpstreamResumeRequest:
+				if r.StreamID == up.ID {
+					nu++
+				}
+			case *message.DownstreamResumeRequest:
+				if r.StreamID == down.ID && r.DesiredStreamIDAlias == alias {
+					nd++
+				}
+			}
+		}
+		vf.Assert("both-streams-resumed-under-their-original-ids", nu == 1 && nd == 1)
+		return t
+	}
+	tr2 := outage(1)
+	// streams work between the outages
+	vf.Assert("upstream-works", up.WriteDataPoints(ctx, id, &message.DataPoint{ElapsedTime: 1}) == nil && up.Flush(ctx) == nil)
+	tr2.push(chunk(2))
+	vf.Settle()
+	c2, e2 := down.ReadDataPoints(ctx)
+	vf.Assert("downstream-works", e2 == nil && c2 != nil && c2.SequenceNumber == 2)
+	tr3 := outage(2)
+	vf.Assert("upstream-works", up.WriteDataPoints(ctx, id, &message.DataPoint{ElapsedTime: 2}) == nil && up.Flush(ctx) == nil)
+	tr3.push(chunk(3))
+	vf.Settle()
+	c3, e3 := down.ReadDataPoints(ctx)
+	vf.Assert("downstream-works", e3 == nil && c3 != nil && c3.SequenceNumber == 3)
+	// closing the downstream flushes the pending acknowledgements: every consumed chunk exactly once, ack ids from 1
+	vf.Assert("downstream-close-ok", down.Close(ctx) == nil)
+	vf.Settle()
+	acked := map[uint32]int{}
+	last := uint32(0)
+	for _, t := range b.trs {
+		for _, m := range t.msgs() {
+			if a, ok := m.(*message.DownstreamChunkAck); ok {
+				vf.Assert("ack-ids-increase-strictly-across-outages", a.AckID > last)
+				last = a.AckID
+				for _, r := range a.Results {
+					acked[r.SequenceNumberInUpstream]++
+				}
+			}
+		}
+	}
+	vf.Assert("every-consumed-chunk-acknowledged-exactly-once", acked[1] == 1 && acked[2] == 1 && acked[3] == 1 && len(acked) == 3)
+	conn.Close(ctx)
+	vf.Reach("end")
+}
+
+func zzC05gTwoOutagesDev1() { zzDeviations = 1; zzC05gTwoOutages() }
